@@ -130,6 +130,11 @@ var rtPatches = []patch{
 	{"sync/pool.go", "\tNew func() any\n}\n", "\tNew func() any\n\n\tverifMu   Mutex\n\tverifList []any\n}\n\n// VerifDeterministic switches every Pool to a LIFO free list (simulation builds only).\nvar VerifDeterministic atomic.Bool\n"},
 	{"sync/pool.go", "func (p *Pool) Put(x any) {\n\tif x == nil {\n\t\treturn\n\t}\n", "func (p *Pool) Put(x any) {\n\tif x == nil {\n\t\treturn\n\t}\n\tif VerifDeterministic.Load() {\n\t\tp.verifMu.Lock()\n\t\tp.verifList = append(p.verifList, x)\n\t\tp.verifMu.Unlock()\n\t\treturn\n\t}\n"},
 	{"sync/pool.go", "func (p *Pool) Get() any {\n", "func (p *Pool) Get() any {\n\tif VerifDeterministic.Load() {\n\t\tp.verifMu.Lock()\n\t\tvar x any\n\t\tif n := len(p.verifList); n > 0 {\n\t\t\tx = p.verifList[n-1]\n\t\t\tp.verifList[n-1] = nil\n\t\t\tp.verifList = p.verifList[:n-1]\n\t\t}\n\t\tp.verifMu.Unlock()\n\t\tif x == nil && p.New != nil {\n\t\t\tx = p.New()\n\t\t}\n\t\treturn x\n\t}\n"},
+	// sync.Once: a second caller of Do blocks on the Once's own mutex while the first is
+	// inside f - if f parks in the scheduler, the second caller is blocked on a real mutex,
+	// which is not a durable block, and the bubble freezes. Instrumented code calls
+	// verifsim.OnceDo, which takes that mutex the scheduler-visible way through these.
+	{"sync/once.go", "func (o *Once) doSlow(f func()) {\n", "// Verif*: simulation builds only (see verifsim.OnceDo).\nfunc (o *Once) VerifDone() bool    { return o.done.Load() }\nfunc (o *Once) VerifTryLock() bool { return o.m.TryLock() }\nfunc (o *Once) VerifLock()         { o.m.Lock() }\nfunc (o *Once) VerifFinish(f func()) {\n\tdefer o.m.Unlock()\n\tif !o.done.Load() {\n\t\tdefer o.done.Store(true)\n\t\tf()\n\t}\n}\n\nfunc (o *Once) doSlow(f func()) {\n"},
 }
 
 func buildRuntimeOverlay(replace map[string]string) {
@@ -462,6 +467,7 @@ func runWorkers(bin string, p *propDef, mode, tier string, seed uint64, runs int
 			total := &WorkerResult{Property: p.ID, Worker: w, Counters: map[string]int64{}}
 			results[w] = total
 			startIdx := 0
+			frozen := 0
 			scratch := filepath.Join(rdir, fmt.Sprintf("scratch%02d", w))
 			for attempt := 0; attempt < 25; attempt++ {
 				out := filepath.Join(rdir, fmt.Sprintf("w%d.%d.json", w, attempt))
@@ -506,6 +512,27 @@ func runWorkers(bin string, p *propDef, mode, tier string, seed uint64, runs int
 				tail := lg
 				if len(tail) > 5000 {
 					tail = tail[len(tail)-5000:]
+				}
+				if strings.Contains(lg, "VERIF-WATCHDOG") && p.Unscheduled && mode == "search" && frozen < 3 {
+					// Tiers with uninstrumented libraries in the bubble (quic-go, gorilla, net/http): a
+					// goroutine blocked on a real mutex of such code while its holder is parked in the
+					// scheduler freezes the bubble. That is the simulator's limit, not a verdict: the
+					// run is abandoned, counted, and the worker goes on with the next one.
+					var crumb struct {
+						Idx int `json:"idx"`
+					}
+					if cb, cerr := os.ReadFile(out + ".crumb"); cerr == nil && json.Unmarshal(cb, &crumb) == nil {
+						if haveResult {
+							mergeResult(total, &r)
+						}
+						if total.Counters == nil {
+							total.Counters = map[string]int64{}
+						}
+						total.Counters["runs_abandoned_simulator_froze"]++
+						frozen++
+						startIdx = crumb.Idx + 1
+						continue
+					}
 				}
 				if strings.Contains(lg, "VERIF-WATCHDOG") || strings.Contains(lg, "NONDETERMINISTIC") || strings.Contains(r.Note, "NONDETERMINISTIC") {
 					errs[w] = fmt.Errorf("worker %d: infrastructure failure (%v): %s\n%s", w, runErr, r.Note, tail)
